@@ -144,13 +144,19 @@ func (e *Engine) scanGlobals() {
 			}
 		}
 	}
-	id := int64(0)
+	// standard-library sentinels get ids 1..999, module-private ones 1000..1999
+	id, mid := int64(0), int64(999)
 	for _, g := range errGlobals {
 		if len(e.storedGlobals[g]) > 0 {
 			continue
 		}
-		id++
-		e.sentinels[g] = id
+		if strings.HasPrefix(g.Pkg.Pkg.Path(), modulePath) {
+			mid++
+			e.sentinels[g] = mid
+		} else {
+			id++
+			e.sentinels[g] = id
+		}
 	}
 }
 
@@ -317,6 +323,17 @@ func (x *FnCtx) verifyBody() {
 			}
 			x.addOb("post", fmt.Sprintf("post#%d@ret%d", i+1, r.ord), r.st, g, false, en.Src)
 		}
+		// callee-side checks may mention the final values of locals
+		lc := &EvalCtx{x: x, fn: fn, pkg: pkgOf(fn), cur: r.st, old: entry, params: params, results: rtvs, resNames: resNames, oldA: entry.heap.A, frame: fr, paramsFirst: true}
+		for i, en := range ctr.Checks {
+			g := lc.boolTerm(en.E)
+			if lc.err != nil {
+				x.errs = append(x.errs, fmt.Sprintf("checks#%d: %v", i+1, lc.err))
+				lc.err = nil
+				continue
+			}
+			x.addOb("post", fmt.Sprintf("check#%d@ret%d", i+1, r.ord), r.st, g, false, en.Src)
+		}
 		x.frameObligations(fmt.Sprintf("ret%d", r.ord), entry, r.st, items)
 	}
 	if len(rets) > 0 {
@@ -401,6 +418,9 @@ func (e *Engine) Discharge(results []*FnResult, timeoutS int, workers int) {
 			}
 			asserts := r.ctx.relevantAxioms(ob.Asserts)
 			asserts = append(asserts, ob.Asserts...)
+			if os.Getenv("GOVC_DEBUG") != "" {
+				fmt.Fprintln(os.Stderr, "== ob", ob.Name)
+			}
 			asserts = r.tb.instantiate(asserts, 2)
 			asserts = append(r.ctx.relevantAxioms(asserts), asserts...)
 			items = append(items, workItem{ob, r.tb.Script(asserts, ob.Cover || true, "ALL")})
